@@ -56,7 +56,16 @@ EXPLANATION = (
     "_uploads[k] (assignment, __setitem__, update({k: ..})) unless `k not in _uploads` holds, get_write_bucket "
     "returns _uploads[si].shares[n] for its own arguments, allocate_buckets registers every (share number, writer) "
     "the backend allocated (loop over the returned dict for a per-share registrar, the dict itself for a batched "
-    "one) under its storage index with the upload secret, on every path to the answer. "
+    "one) under its storage index with the upload secret, on every path to the answer; (14) a table operation -> "
+    "(route, StorageServer entry point) is derived, naming no operation: a parameter of an _HTTPStorageServer method is a "
+    "secret when it (or its components p[0], p[1], ..) reaches a secret keyword of <client>.request, whose (method, path) "
+    "gives the route; the same-named _StorageServer method -> callRemote('X') -> FoolscapStorageServer.remote_X -> "
+    "self._server.Y(..) gives the entry point Y and the parameter of Y that receives each secret on the direct path; "
+    "every path of the route handler to a normal return that set no error status passes (leaving by a non-exceptional "
+    "edge) a call <backend attribute>.Y(..) whose secret parameters are authorization[Secrets.<member>] (a tuple of them "
+    "for a tuple parameter) - so no path (fast path, fallback after an exception) answers from a backend call that never "
+    "sees the secrets, e.g. slot_readv instead of slot_testv_and_readv_and_writev; (15) every normal exit of an "
+    "_HTTPStorageServer method with secret parameters has attempted, for each secret, the client call that carries it. "
     "Undecided: equivalence of results over operation histories, CBOR/base64/werkzeug value-level behaviour, "
     "timeouts and connection handling; the malformed-request guards of the server (Range / Content-Range / "
     "Authorization / secret-length checks) and the sanity checks of the client (content type, Content-Range "
@@ -67,9 +76,13 @@ EXPLANATION = (
     "remove_write_bucket is registered; registering methods that fill the tables in bulk (dict.update / constructor "
     "arguments) or enumerate writers other than by `for n, w in <param>.items()` (ANALYSIS-ERROR, not guessed); the actual on-disk lease count / data length values (C31.12 compares "
     "the formulas, not file contents); exact error statuses other than "
-    "204/401/404/409/416.")
+    "204/401/404/409/416; the upload secret (no direct counterpart: the Foolscap path has none, so skipping its check is "
+    "invisible to a differential comparison); for C31.14 a handler that reaches the entry point only through a helper "
+    "method (ANALYSIS-ERROR, not guessed), whether Y itself checks the secrets (C20/C21 territory), and secret-less routes "
+    "(reads, listings, corruption reports), whose backend calls legitimately differ from the direct path's.")
 TECHNIQUE = ("static analysis: extraction of route/request/schema tables from both sides and comparison; CFG edge facts; "
-             "must-precede / must-follow path queries on the handlers, the client functions and the adapter")
+             "must-precede / must-follow path queries on the handlers, the client functions and the adapter; "
+             "route -> backend-operation table composed from both adapters, remote_* and the routes")
 
 SRV = "allmydata.storage.http_server"
 CLI = "allmydata.storage.http_client"
@@ -1654,6 +1667,17 @@ def run(ctx: Context):
                   "looks up (storage_index, share_number), allocate_buckets registers every allocated writer", expected=5) as r:
         uploads_tracking(idx, r)
 
+    # ---------------------------------------------------------------- 14 / 15 -
+    ops = secret_operations(idx, cli, s_tab)
+    with ctx.rule("C31.14", "R1/R5", "every path of a route handler that answers successfully reaches the StorageServer entry "
+                  "point the direct (Foolscap remote_*) operation uses, with the request's secrets in the parameters the direct "
+                  "path fills; no path answers from a backend call that skips the secret checks (table route -> operation "
+                  "derived from the two adapters, remote_* and the routes)", expected=3) as r:
+        handlers_reach_direct_operation(idx, r, ops)
+    with ctx.rule("C31.15", "R1", "every normal return of an _HTTPStorageServer method that takes secrets has made the HTTP "
+                  "request that carries them (no answer assembled from secret-less requests)", expected=3) as r:
+        adapters_send_secrets(idx, r, ops)
+
 
 def fmt(keys):
     return "{" + ", ".join(sorted(("b" if k == "b" else "") + repr(v) for (k, v) in keys if (k, v) is not None)) + "}" \
@@ -1720,10 +1744,12 @@ class Tracer:
             return self.cm.funcs[t]
         return None
 
-    def trace(self, fn, source, depth=6):
-        """source: parameter name or 'param[i]'."""
+    def carriers(self, fn, source, depth=6):
+        """The calls of fn that hand `source` (parameter name or 'param[i]') on - directly or through http_client
+        wrappers - to a parameter of <client>.request(..) -> [(node, call, {request parameter..}, [(client fn, request
+        call)..])]."""
         fnorm = FlowNorm(fn)
-        out = set()
+        out = []
         if depth < 0:
             return out
         for n in fn.cfg().nodes:
@@ -1739,21 +1765,34 @@ class Tracer:
                         hits.append((None, k.arg))
                 if not hits:
                     continue
+                kws, reqs = set(), []
                 if call_tail(c) == "request" and isinstance(c.func, ast.Attribute) \
                         and attr_path(c.func.value) in ("self._client", "client"):
                     rq = self.idx.func("storage.http_client:StorageClient.request")
                     ps = first_positional_params(rq)
                     for (i, kw) in hits:
-                        out.add(kw if kw is not None else (ps[i] if i < len(ps) else "?"))
-                    continue
-                tgt = self.callee(fn, c)
-                if tgt is None:
-                    continue
-                ps = first_positional_params(tgt) if tgt.cls is not None else tgt.params
-                for (i, kw) in hits:
-                    p = kw if kw is not None else (ps[i] if i < len(ps) else None)
-                    if p is not None and p in ps:
-                        out |= self.trace(tgt, p, depth - 1)
+                        kws.add(kw if kw is not None else (ps[i] if i < len(ps) else "?"))
+                    reqs.append((fn, c))
+                else:
+                    tgt = self.callee(fn, c)
+                    if tgt is None:
+                        continue
+                    ps = first_positional_params(tgt) if tgt.cls is not None else tgt.params
+                    for (i, kw) in hits:
+                        p = kw if kw is not None else (ps[i] if i < len(ps) else None)
+                        if p is not None and p in ps:
+                            for (_n, _c, k2, r2) in self.carriers(tgt, p, depth - 1):
+                                kws |= k2
+                                reqs += r2
+                if kws:
+                    out.append((n, c, kws, reqs))
+        return out
+
+    def trace(self, fn, source, depth=6):
+        """source: parameter name or 'param[i]' -> the request(..) parameters it reaches."""
+        out = set()
+        for (_n, _c, kws, _r) in self.carriers(fn, source, depth):
+            out |= kws
         return out
 
     @staticmethod
@@ -2743,3 +2782,246 @@ def registrars(idx, r, up, siu, fields, wfield, top, back, entry_of):
     if not found:
         raise AnchorVanished("no method of UploadsInProgress stores a BucketWriter under %s[..].%s[..] / %s[..]" % (top, wfield, back))
     return found
+
+
+# ------------------------------------------------------------------ C31.14 / C31.15: route -> direct operation table
+FOOL_ADAPTER = "storage_client:_StorageServer"
+FOOL_SERVER = "storage.server:FoolscapStorageServer"
+BACKEND = "storage.server:StorageServer"
+
+
+class SecretOp:
+    """One IStorageServer operation that takes secrets.
+    m: the _HTTPStorageServer method; sources: [(position of the parameter, component index | None, Secrets member,
+    carrier nodes in m)]; routes: the ServerRoutes the secret-carrying requests go to; direct: [(StorageServer method Y,
+    remote_X, {parameter position: parameter name of Y})] - where the direct path hands the same parameters."""
+
+    def __init__(self, m, sources, routes, direct):
+        self.m, self.sources, self.routes, self.direct = m, sources, routes, direct
+
+
+def backend_attr(fn_init, type_name):
+    """`self.<attr>` in which __init__ keeps the parameter annotated / named as the backend object."""
+    ps = [a.arg for a in fn_init.node.args.args
+          if a.annotation is not None and any(isinstance(x, ast.Name) and x.id == type_name for x in ast.walk(a.annotation))]
+    if not ps:
+        ps = first_positional_params(fn_init)[:1] if len(first_positional_params(fn_init)) == 1 else []
+    out = set()
+    for n in func_own_nodes(fn_init):
+        if isinstance(n, ast.Assign) and isinstance(n.value, ast.Name) and n.value.id in ps:
+            for t in n.targets:
+                if attr_path(t) is not None and attr_path(t).startswith("self."):
+                    out.add(attr_path(t))
+    if len(out) != 1:
+        raise AnchorVanished("%s keeps its StorageServer in exactly one attribute (found %s)" % (short(fn_init), sorted(out)))
+    return out.pop()
+
+
+def direct_operation(idx, mname, n_params):
+    """The direct path of IStorageServer.<mname>: _StorageServer.<mname> -> callRemote("X", ..) -> FoolscapStorageServer.
+    remote_X -> self._server.Y(..)  ->  [(Y, remote_X, {position of the adapter parameter: parameter name of Y})]."""
+    fa = idx.cls(FOOL_ADAPTER)
+    fs = idx.cls(FOOL_SERVER)
+    ss = idx.cls(BACKEND)
+    fm = fa.methods.get(mname)
+    if fm is None:
+        raise AnalysisError("_HTTPStorageServer.%s takes secrets but the Foolscap adapter has no method of that name: "
+                            "cannot establish which backend operation the direct path uses" % mname)
+    fp = first_positional_params(fm)
+    if len(fp) != n_params:
+        raise AnalysisError("%s and _HTTPStorageServer.%s take different parameters" % (short(fm), mname))
+    fnm = FlowNorm(fm)
+    crs = [(n, c) for n in fm.cfg().nodes for c in node_calls(n) if call_tail(c) == "callRemote" and c.args
+           and isinstance(c.args[0], ast.Constant) and isinstance(c.args[0].value, str)]
+    if not crs:
+        raise AnchorVanished("%s no longer uses callRemote(<name>, ..)" % short(fm))
+    init = fs.methods.get("__init__")
+    if init is None:
+        raise AnchorVanished("FoolscapStorageServer.__init__")
+    battr = backend_attr(init, "StorageServer")
+    out = []
+    for (n, c) in crs:
+        rx = fs.methods.get("remote_" + c.args[0].value)
+        if rx is None:
+            raise AnalysisError("%s calls the remote method %r, which FoolscapStorageServer does not define" % (short(fm), c.args[0].value))
+        rp = first_positional_params(rx)
+        to_remote = {}
+        for j, a in enumerate(c.args[1:]):
+            if isinstance(a, ast.Starred):
+                break
+            f = fnm.norm(n, a)
+            if f in fp and j < len(rp):
+                to_remote[fp.index(f)] = rp[j]
+        for k in c.keywords:
+            if k.arg and fnm.norm(n, k.value) in fp and k.arg in rp:
+                to_remote[fp.index(fnm.norm(n, k.value))] = k.arg
+        rnm = FlowNorm(rx)
+        for n2 in rx.cfg().nodes:
+            for c2 in node_calls(n2):
+                if not (isinstance(c2.func, ast.Attribute) and attr_path(c2.func.value) == battr and c2.func.attr in ss.methods):
+                    continue
+                y = ss.methods[c2.func.attr]
+                yp = first_positional_params(y)
+                to_y = {}
+                for j, a in enumerate(c2.args):
+                    if isinstance(a, ast.Starred):
+                        break
+                    if j < len(yp):
+                        to_y[rnm.norm(n2, a)] = yp[j]
+                for k in c2.keywords:
+                    if k.arg:
+                        to_y[rnm.norm(n2, k.value)] = k.arg
+                out.append((y, rx, {i: to_y[q] for i, q in to_remote.items() if q in to_y}))
+    return out
+
+
+def secret_operations(idx, cli, s_tab):
+    """Table of the operations that take secrets, from both adapters (no operation / route is named here)."""
+    ad = idx.cls(ADAPTER)
+    tracer = Tracer(idx)
+    _rq, _lp, sec_params = secret_param_table(idx)
+    by_call = {id(c.call): c for c in cli}
+    ops = []
+    for m in ad.methods.values():
+        if m.name.startswith("_") or isinstance(m.node, ast.Lambda):
+            continue
+        ps = first_positional_params(m)
+        sources, routes = [], {}
+        for i, p in enumerate(ps):
+            cands = [(p, None)]
+            for (src_, comp) in cands + [("%s[%d]" % (p, k), k) for k in range(8)]:
+                car = [x for x in tracer.carriers(m, src_) if x[2] & set(sec_params)]
+                if not car:
+                    if comp is None:
+                        continue
+                    break
+                kws = set()
+                for (_n, _c, k2, reqs) in car:
+                    kws |= (k2 & set(sec_params))
+                    for (cf, rc) in reqs:
+                        cr = by_call.get(id(rc))
+                        if cr is None:
+                            raise AnalysisError("%s: the request made by %s is not in the client request table" % (short(m), short(cf)))
+                        for pth in cr.paths:
+                            rt = s_tab.get((cr.method, pth))
+                            if rt is not None:
+                                routes[(cr.method, pth)] = rt
+                if len(kws) != 1:
+                    raise AnalysisError("%s: %s reaches the HTTP request as several secrets %s" % (short(m), src_, sorted(kws)))
+                sources.append((i, comp, sec_params[kws.pop()], [x[0] for x in car]))
+                if comp is None:
+                    break
+        if not sources:
+            continue
+        if not routes:
+            raise AnalysisError("%s sends secrets to no known route" % short(m))
+        direct = direct_operation(idx, m.name, len(ps))
+        ops.append(SecretOp(m, sources, routes, direct))
+    if not ops:
+        raise AnchorVanished("no _HTTPStorageServer method forwards a secret to the HTTP client")
+    return ops
+
+
+def handlers_reach_direct_operation(idx, r, ops):
+    hs = idx.cls(HS)
+    init = hs.methods.get("__init__")
+    if init is None:
+        raise AnchorVanished("HTTPServer.__init__")
+    battr = backend_attr(init, "StorageServer")
+    ss = idx.cls(BACKEND)
+    for op in ops:
+        # the backend entry points to which the direct path hands (all of) the secret parameters
+        secret_pos = sorted({i for (i, _c, _m, _n) in op.sources})
+        direct = [(y, rx, mp) for (y, rx, mp) in op.direct if all(i in mp for i in secret_pos)]
+        if not direct:
+            raise AnalysisError("cannot find the StorageServer method to which the direct %s hands its secrets (%s)" % (
+                op.m.name, "; ".join("%s via %s" % (y.name, rx.name) for (y, rx, _mp) in op.direct) or "no backend call"))
+        for key in sorted(op.routes):
+            h = op.routes[key].fn
+            hp = first_positional_params(h)
+            if len(hp) < 2:
+                raise AnchorVanished("%s(request, authorization, ..)" % short(h))
+            auth = hp[1]
+            hn, hcfg = FlowNorm(h), h.cfg()
+            for (y, rx, mp) in direct:
+                yps = first_positional_params(y)
+                want = {}
+                for i in secret_pos:
+                    comps = sorted((c, mem) for (j, c, mem, _n) in op.sources if j == i)
+                    if comps[0][0] is None:
+                        want[mp[i]] = norm_src("%s[Secrets.%s]" % (auth, comps[0][1]))
+                    else:
+                        if [c for (c, _m) in comps] != list(range(len(comps))):
+                            raise AnalysisError("%s: components %s of parameter %d are secrets, not a whole tuple" % (
+                                short(op.m), [c for (c, _m) in comps], i))
+                        want[mp[i]] = norm_src("(%s,)" % ", ".join("%s[Secrets.%s]" % (auth, mem) for (_c, mem) in comps))
+                shown = "%s.%s(%s)" % (battr, y.name, ", ".join("%s=%s" % (k, v) for k, v in sorted(want.items())))
+
+                def same_op(c, _y=y):
+                    return isinstance(c.func, ast.Attribute) and c.func.attr == _y.name and attr_path(c.func.value) == battr
+
+                def strong(n, _y=y, _yps=yps, _want=want):
+                    for c in node_calls(n):
+                        if not same_op(c):
+                            continue
+                        ok = True
+                        for prm, form in _want.items():
+                            a = arg(c, _yps.index(prm), prm) if prm in _yps else kwarg(c, prm)
+                            ok = ok and a is not None and hn.norm(n, a) == form
+                        if ok:
+                            return True
+                    return False
+                err_status = lambda n, _h=h: any(not (200 <= code < 300) for (q, code) in set_codes(_h) if q is n)
+                cands = [c for n in hcfg.nodes for c in node_calls(n) if same_op(c)]
+                if not cands:
+                    # the operation may have been moved into a helper method: not decided here rather than guessed
+                    for n in hcfg.nodes:
+                        for c in node_calls(n):
+                            if isinstance(c.func, ast.Attribute) and attr_path(c.func.value) == "self" and c.func.attr in hs.methods \
+                                    and calls_in_func(hs.methods[c.func.attr], y.name):
+                                raise AnalysisError("%s reaches %s.%s only through %s: cannot decide that every path hands the "
+                                                    "secrets on" % (short(h), battr, y.name, c.func.attr))
+                r.site(h, cands[0] if cands else None, "%s %s -> %s (direct: %s -> %s)" % (key[0], key[1], shown, rx.name, y.name))
+                bad = find_path_avoiding(hcfg, is_exit, gate_node=lambda n: strong(n) or err_status(n))
+                for (_t, wt) in bad:
+                    others = []
+                    for (pn, _l) in wt.path:
+                        for c in node_calls(pn):
+                            if isinstance(c.func, ast.Attribute) and attr_path(c.func.value) == battr and not strong(pn):
+                                others.append(src(h, c))
+                    secs = ", ".join("%s[Secrets.%s]" % (auth, mem) for (_i, _c, mem, _n) in op.sources)
+                    r.violation(h, h.loc(cands[0]) if cands else h.loc(),
+                                "%s (%s %s) can answer successfully without %s: the direct %s always goes through "
+                                "StorageServer.%s with the caller's secrets (%s), which is where they are checked / used; on this "
+                                "path the answer %s, so a request with wrong secrets (%s) is served where the direct path "
+                                "refuses or acts differently (path: %s)" % (
+                                    h.name, key[0], key[1], shown, op.m.name, y.name, rx.name,
+                                    ("comes from " + "; ".join(others)) if others else "involves no backend call",
+                                    secs, wt.brief()), wt)
+
+
+def adapters_send_secrets(idx, r, ops):
+    for op in ops:
+        m = op.m
+        cfg = m.cfg()
+        ps = first_positional_params(m)
+        r.site(m, None, "secrets of %s sent on every path" % m.name)
+        for (i, comp, mem, nodes) in op.sources:
+            ids = {n.id for n in nodes}
+
+            def tr(n, lab, nxt, st, _ids=ids):
+                if n.kind in ("entry", "exit", "raise"):
+                    return st
+                # an attempted request counts (the exceptional edge models its failure, e.g. 404 / 401 answers)
+                return st or (n.id in _ids)
+            vis, par = explore(cfg, False, tr)
+            for (nid, st) in sorted(vis, key=lambda x: (x[0], x[1])):
+                if nid == cfg.exit.id and not st:
+                    wt = witness(cfg, par, (nid, st))
+                    what = ps[i] if comp is None else "%s[%d]" % (ps[i], comp)
+                    r.violation(m, m.loc(), "_HTTPStorageServer.%s can return normally without having sent %s as the %s "
+                                "secret: the server cannot have checked / used it, while the direct path always hands it to "
+                                "StorageServer.%s (path: %s)" % (
+                                    m.name, what, mem, "/".join(sorted({y.name for (y, _rx, _mp) in op.direct})) or "?",
+                                    wt.brief()), wt)
+                    break
